@@ -124,3 +124,480 @@ Proof.
     try (destruct (IH _ _ _ _ _ _ _ _ _ _ _ H x Hx) as [Hy|Hy]; [|auto];
          cbn [a_migs] in Hy; try (destruct Hy as [<-|Hy]; [right; reflexivity|]); auto; fail).
 Qed.
+
+Definition ents (l : list chunk) : list (list mig_store) := map chunk_entries l.
+
+Lemma metas_from_same_ents a b e : ents b = ents a -> metas_from a b e.
+Proof.
+  intros H. apply metas_from_pointwise. intros c' Hc'. apply In_nth_error in Hc'. destruct Hc' as (j & Hj).
+  assert (Hx : nth_error (ents a) j = Some (chunk_entries c')).
+  { rewrite <- H. unfold ents. rewrite nth_error_map, Hj. reflexivity. }
+  unfold ents in Hx. rewrite nth_error_map in Hx. destruct (nth_error a j) as [c|] eqn:Ea; [|discriminate].
+  cbn in Hx. inversion Hx as [Hx']. exists c. split; [apply (nth_error_In _ _ Ea)|].
+  apply chunk_from_same_entries. symmetry. exact Hx'.
+Qed.
+
+Lemma scale_out_chunks_migs e av rem smn dmn scn : forall chunks idx acc chunks' acc',
+  scale_out_chunks e av rem smn dmn scn idx chunks acc = Done (chunks', acc') ->
+  ents chunks' = ents chunks /\ forall x, In x (a_migs acc') -> In x (a_migs acc) \/ mm_epoch (snd x) = e.
+Proof.
+  induction chunks as [|c rest IH]; intros idx acc chunks' acc' H; cbn [scale_out_chunks] in H.
+  - inversion H. split; [reflexivity|auto].
+  - cbv zeta in H.
+    assert (Hstep : forall p cx ax cy ay,
+              match ck_stable cx p with
+              | Some rl =>
+                match scale_out_loop (loop_fuel rl dmn) e av rem smn dmn scn idx p rl ax with
+                | Done (rl', acc') => Done (set_stable cx p (Some rl'), acc')
+                | Fail e0 => Fail e0
+                | Panic => Panic
+                end
+              | None => Done (cx, ax)
+              end = Done (cy, ay) ->
+              chunk_entries cy = chunk_entries cx /\ forall x, In x (a_migs ay) -> In x (a_migs ax) \/ mm_epoch (snd x) = e).
+    { intros p cx ax cy ay Hp. destruct (ck_stable cx p) as [rl|].
+      - destruct (scale_out_loop _ e av rem smn dmn scn idx p rl ax) as [[rl' a']|?|] eqn:El; try discriminate.
+        inversion Hp; subst. split; [apply entries_set_stable|]. apply (scale_out_loop_migs _ _ _ _ _ _ _ _ _ _ _ _ _ El).
+      - inversion Hp; subst. split; [reflexivity|auto]. }
+    match type of H with match ?d0 with _ => _ end = _ => destruct d0 as [[c1 acc1]|?|] eqn:E0; try discriminate end.
+    match type of H with match ?d1 with _ => _ end = _ => destruct d1 as [[c2 acc2]|?|] eqn:E1; try discriminate end.
+    destruct (scale_out_chunks e av rem smn dmn scn (S idx) rest acc2) as [[rest' acc3]|?|] eqn:Er; try discriminate.
+    inversion H; subst chunks' acc'.
+    destruct (Hstep _ _ _ _ _ E0) as [Hc1 Ha1]. destruct (Hstep _ _ _ _ _ E1) as [Hc2 Ha2].
+    destruct (IH _ _ _ _ Er) as [Hr Ha3].
+    split.
+    + unfold ents in *. cbn [map]. rewrite Hr, Hc2, Hc1. reflexivity.
+    + intros x Hx. destruct (Ha3 x Hx) as [H3|H3]; [|auto]. destruct (Ha2 x H3) as [H2|H2]; [|auto]. apply (Ha1 x H2).
+Qed.
+
+Lemma scale_down_chunks_migs e av rem dmn ex : forall chunks idx acc chunks' acc',
+  scale_down_chunks e av rem dmn ex idx chunks acc = Done (chunks', acc') ->
+  ents chunks' = ents chunks /\ forall x, In x (a_migs acc') -> In x (a_migs acc) \/ mm_epoch (snd x) = e.
+Proof.
+  induction chunks as [|c rest IH]; intros idx acc chunks' acc' H; cbn [scale_down_chunks] in H.
+  - inversion H. split; [reflexivity|auto].
+  - cbv zeta in H.
+    assert (Hstep : forall p cx ax cy ay,
+              match ck_stable cx p with
+              | Some rl =>
+                match scale_down_loop (loop_fuel rl dmn) e av rem dmn ex idx p rl ax with
+                | Done (_, acc') => Done (set_stable cx p None, acc')
+                | Fail e0 => Fail e0
+                | Panic => Panic
+                end
+              | None => Done (cx, ax)
+              end = Done (cy, ay) ->
+              chunk_entries cy = chunk_entries cx /\ forall x, In x (a_migs ay) -> In x (a_migs ax) \/ mm_epoch (snd x) = e).
+    { intros p cx ax cy ay Hp. destruct (ck_stable cx p) as [rl|].
+      - destruct (scale_down_loop _ e av rem dmn ex idx p rl ax) as [[rl' a']|?|] eqn:El; try discriminate.
+        inversion Hp; subst. split; [apply entries_set_stable|]. apply (scale_down_loop_migs _ _ _ _ _ _ _ _ _ _ _ _ El).
+      - inversion Hp; subst. split; [reflexivity|auto]. }
+    match type of H with match ?d0 with _ => _ end = _ => destruct d0 as [[c1 acc1]|?|] eqn:E0; try discriminate end.
+    match type of H with match ?d1 with _ => _ end = _ => destruct d1 as [[c2 acc2]|?|] eqn:E1; try discriminate end.
+    destruct (scale_down_chunks e av rem dmn ex (S idx) rest acc2) as [[rest' acc3]|?|] eqn:Er; try discriminate.
+    inversion H; subst chunks' acc'.
+    destruct (Hstep _ _ _ _ _ E0) as [Hc1 Ha1]. destruct (Hstep _ _ _ _ _ E1) as [Hc2 Ha2].
+    destruct (IH _ _ _ _ Er) as [Hr Ha3].
+    split.
+    + unfold ents in *. cbn [map]. rewrite Hr, Hc2, Hc1. reflexivity.
+    + intros x Hx. destruct (Ha3 x Hx) as [H3|H3]; [|auto]. destruct (Ha2 x H3) as [H2|H2]; [|auto]. apply (Ha1 x H2).
+Qed.
+
+Lemma remove_slots_from_src_migs cl e chunks migs :
+  remove_slots_from_src cl e = Done (chunks, migs) ->
+  ents chunks = ents (cl_chunks cl) /\ forall x, In x migs -> mm_epoch (snd x) = e.
+Proof.
+  unfold remove_slots_from_src.
+  match goal with |- context [scale_out_chunks ?a ?b ?c ?d ?e0 ?f ?g ?h ?i] =>
+    destruct (scale_out_chunks a b c d e0 f g h i) as [[ch acc]|?|] eqn:E end; try discriminate.
+  intros H. inversion H; subst. destruct (scale_out_chunks_migs _ _ _ _ _ _ _ _ _ _ _ E) as [H1 H2].
+  split; [exact H1|]. intros x Hx. apply in_rev in Hx. destruct (H2 x Hx) as [[]|Hy]. exact Hy.
+Qed.
+
+Lemma remove_slots_scale_down_migs cl e k chunks migs :
+  remove_slots_from_src_to_scale_down cl e k = Done (chunks, migs) ->
+  ents chunks = ents (cl_chunks cl) /\ forall x, In x migs -> mm_epoch (snd x) = e.
+Proof.
+  unfold remove_slots_from_src_to_scale_down.
+  destruct (existing_nums (firstn k (cl_chunks cl))) as [ex|]; [|discriminate].
+  match goal with |- context [scale_down_chunks ?a ?b ?c ?d ?e0 ?f ?g ?h] =>
+    destruct (scale_down_chunks a b c d e0 f g h) as [[ch acc]|?|] eqn:E end; try discriminate.
+  intros H. inversion H; subst. destruct (scale_down_chunks_migs _ _ _ _ _ _ _ _ _ _ E) as [H1 H2].
+  split.
+  - unfold ents in *. rewrite map_app, H1, <- map_app, firstn_skipn. reflexivity.
+  - intros x Hx. apply in_rev in Hx. destruct (H2 x Hx) as [[]|Hy]. exact Hy.
+Qed.
+
+Lemma chunk_from_append c p new e : mm_epoch (ms_meta new) = e -> chunk_from c (set_mig c p (ck_mig c p ++ [new])) e.
+Proof.
+  intros He m' Hm'. unfold chunk_entries in *.
+  destruct p; cbn [set_mig ck_mig ck_mig0 ck_mig1] in Hm'; rewrite ?in_app_iff in Hm'; cbn [In] in Hm'.
+  - destruct Hm' as [H|[H|[<-|[]]]]; [right; exists m'; rewrite in_app_iff; auto|right; exists m'; rewrite in_app_iff; auto|auto].
+  - destruct Hm' as [[H|[<-|[]]]|H]; [right; exists m'; rewrite in_app_iff; auto|auto|right; exists m'; rewrite in_app_iff; auto].
+Qed.
+
+Lemma assign_dst_slots_metas e : forall migs chunks chunks',
+  (forall x, In x migs -> mm_epoch (snd x) = e) ->
+  assign_dst_slots chunks migs = Done chunks' -> metas_from chunks chunks' e.
+Proof.
+  induction migs as [|[rl m] rest IH]; intros chunks chunks' Hm H; cbn [assign_dst_slots] in H.
+  - inversion H. apply metas_from_refl.
+  - destruct (Nat.ltb (mm_src_idx m) (length chunks) && Nat.ltb (mm_dst_idx m) (length chunks)); [|discriminate].
+    assert (He : mm_epoch m = e) by (apply (Hm (rl, m)); left; reflexivity).
+    eapply metas_from_trans; [|apply (IH _ _ (fun x Hx => Hm x (or_intror Hx)) H)].
+    eapply metas_from_trans; apply metas_from_update_nth; intros c; apply chunk_from_append; exact He.
+Qed.
+
+Lemma compact_slots_metas chunks e : metas_from chunks (compact_slots chunks) e.
+Proof.
+  unfold compact_slots. apply metas_from_map. intros c m' Hm'. right.
+  unfold chunk_entries in *. cbn [compact_chunk ck_mig0 ck_mig1] in Hm'. rewrite <- map_app in Hm'.
+  apply in_map_iff in Hm'. destruct Hm' as (m & <- & Hm). exists m. split; [exact Hm|reflexivity].
+Qed.
+
+Lemma remove_first_In {A} (p : A -> bool) l x l' : remove_first p l = Some (x, l') -> forall y, In y l' -> In y l.
+Proof.
+  revert x l'. induction l as [|a l IH]; intros x l' H y Hy; cbn [remove_first] in H; [discriminate|].
+  destruct (p a).
+  - inversion H; subst. right. exact Hy.
+  - destruct (remove_first p l) as [[z r]|] eqn:E; [|discriminate]. inversion H; subst.
+    destruct Hy as [<-|Hy]; [left; reflexivity|right; apply (IH _ _ eq_refl y Hy)].
+Qed.
+
+Lemma commit_in_metas rl meta e : forall chunks, metas_from chunks (commit_in chunks rl meta) e.
+Proof.
+  intros chunks. apply metas_from_pointwise. induction chunks as [|c rest IH]; intros c' Hc'; cbn [commit_in] in Hc';
+    [destruct Hc'|]. cbv zeta in Hc'.
+  destruct (remove_first _ (ck_mig0 c)) as [[e0 l0]|] eqn:E0.
+  - destruct Hc' as [<-|Hc']; [|exists c'; split; [right; exact Hc'|apply chunk_from_same_entries; reflexivity]].
+    exists c. split; [left; reflexivity|]. intros m' Hm'. right. exists m'. split; [|reflexivity].
+    change (ck_stable (set_mig c false l0) false) with (ck_stable c false) in Hm'.
+    assert (Hm2 : In m' (l0 ++ ck_mig1 c)) by (destruct (ck_stable c false); exact Hm').
+    unfold chunk_entries. rewrite in_app_iff in *. destruct Hm2 as [H|H]; [left; apply (remove_first_In _ _ _ _ E0 m' H)|auto].
+  - destruct (remove_first _ (ck_mig1 c)) as [[e1 l1]|] eqn:E1.
+    + destruct Hc' as [<-|Hc']; [|exists c'; split; [right; exact Hc'|apply chunk_from_same_entries; reflexivity]].
+      exists c. split; [left; reflexivity|]. intros m' Hm'. right. exists m'. split; [|reflexivity].
+      change (ck_stable (set_mig c true l1) true) with (ck_stable c true) in Hm'.
+      assert (Hm2 : In m' (ck_mig0 c ++ l1)) by (destruct (ck_stable c true); exact Hm').
+      unfold chunk_entries. rewrite in_app_iff in *. destruct Hm2 as [H|H]; [auto|right; apply (remove_first_In _ _ _ _ E1 m' H)].
+    + destruct Hc' as [<-|Hc'].
+      * exists c. split; [left; reflexivity|apply chunk_from_same_entries; reflexivity].
+      * destruct (IH c' Hc') as (c0 & Hc0 & Hf). exists c0. split; [right; exact Hc0|exact Hf].
+Qed.
+
+Lemma filter_chunks_metas keep chunks e :
+  metas_from chunks (map (fun c => set_mig (set_mig c false (filter keep (ck_mig0 c))) true (filter keep (ck_mig1 c))) chunks) e.
+Proof.
+  apply metas_from_map. intros c m' Hm'. right. exists m'. split; [|reflexivity].
+  unfold chunk_entries in *. cbn [set_mig ck_mig0 ck_mig1] in Hm'. rewrite in_app_iff in *.
+  destruct Hm' as [H|H]; apply filter_In in H; tauto.
+Qed.
+
+Lemma takeover_metas_le cl f e E : metas_le (cl_chunks cl) E -> E < e -> metas_le (cl_chunks (takeover_master cl f e)) e.
+Proof.
+  intros H Hlt. apply metas_le_epochs_le. apply metas_le_epochs_le in H.
+  apply (takeover_epochs cl f e E H Hlt).
+Qed.
+
+Lemma replace_in_chunks_ents chunks f r rr : ents (replace_in_chunks chunks f r rr) = ents chunks.
+Proof.
+  unfold ents. induction chunks as [|c rest IH]; cbn [replace_in_chunks map]; [reflexivity|].
+  destruct (N.eqb (ck_proxy0 c) f); [reflexivity|]. destruct (N.eqb (ck_proxy1 c) f); [reflexivity|].
+  cbn [map]. rewrite IH. reflexivity.
+Qed.
+
+(* ---------- store level ---------- *)
+Lemma sml_same s s' :
+  st_clusters s' = st_clusters s -> st_epoch s <= st_epoch s' -> store_metas_le s -> store_metas_le s'.
+Proof. intros Hc He Hs n cl Hin. rewrite Hc in Hin. eapply metas_le_mono; [apply (Hs n cl Hin)|exact He]. Qed.
+
+Lemma sml_insert s s' name cl' :
+  st_clusters s' = ainsert name cl' (st_clusters s) -> st_epoch s <= st_epoch s' ->
+  metas_le (cl_chunks cl') (st_epoch s') -> store_metas_le s -> store_metas_le s'.
+Proof.
+  intros Hc He Hcl Hs n cl Hin. rewrite Hc in Hin.
+  destruct (ainsert_In _ _ _ _ _ Hin) as [[-> ->]|Hold]; [exact Hcl|].
+  eapply metas_le_mono; [apply (Hs n cl Hold)|exact He].
+Qed.
+
+Lemma sml_lookup s name cl : store_metas_le s -> alookup name (st_clusters s) = Some cl -> metas_le (cl_chunks cl) (st_epoch s).
+Proof. intros Hs Hl. apply (Hs name cl). apply alookup_In. exact Hl. Qed.
+
+Ltac solve_same Hs :=
+  first [ exact Hs
+        | refine (sml_same _ _ _ _ Hs);
+          [reflexivity | cbn [fst st_epoch bump with_epoch with_clusters with_proxies with_failed with_failures]; lia] ].
+
+Ltac peel_inv Hs :=
+  repeat match goal with
+  | |- store_metas_le (fst (if ?b then _ else _)) => destruct b; [solve_same Hs|]
+  end.
+
+Lemma no_migs_metas_le chunks E : (forall c, In c chunks -> chunk_entries c = []) -> metas_le chunks E.
+Proof. intros H c m Hc Hm. rewrite (H c Hc) in Hm. destruct Hm. Qed.
+
+Lemma chunks_of_pairs_no_migs s ws av rem : forall pairs i curr c,
+  In c (chunks_of_pairs s pairs ws av rem i curr) -> chunk_entries c = [].
+Proof.
+  induction pairs as [|[a b] rest IH]; intros i curr c H; cbn [chunks_of_pairs] in H; [destruct H|].
+  destruct H as [<-|H]; [reflexivity|]. apply (IH _ _ _ H).
+Qed.
+
+Lemma add_cluster_inv s name k cfg ch : store_metas_le s -> store_metas_le (fst (add_cluster s name k cfg ch)).
+Proof.
+  intros Hs. unfold add_cluster. peel_inv Hs.
+  destruct (gen_chunks s (k / 2) 0 ch) as [pairs|?|]; try solve_same Hs.
+  cbn [fst]. eapply (sml_insert s); [reflexivity|cbn; lia| |exact Hs].
+  cbn [cl_chunks]. apply no_migs_metas_le. intros c Hc. apply (chunks_of_pairs_no_migs _ _ _ _ _ _ _ _ Hc).
+Qed.
+
+Lemma remove_cluster_inv s name : store_metas_le s -> store_metas_le (fst (remove_cluster s name)).
+Proof.
+  intros Hs. unfold remove_cluster. destruct (alookup name (st_clusters s)); [|exact Hs].
+  cbn [fst]. intros n cl Hin. cbn in Hin. apply aremove_In in Hin.
+  eapply metas_le_mono; [apply (Hs n cl Hin)|cbn; lia].
+Qed.
+
+Lemma auto_add_nodes_inv s name k ch : store_metas_le s -> store_metas_le (fst (auto_add_nodes s name k ch)).
+Proof.
+  intros Hs. unfold auto_add_nodes. destruct (alookup name (st_clusters s)) as [cl|] eqn:El; [|exact Hs].
+  peel_inv Hs.
+  destruct (gen_chunks _ _ _ ch) as [pairs|?|]; try solve_same Hs.
+  cbn [fst]. eapply (sml_insert s); [reflexivity|cbn; lia| |exact Hs].
+  cbn [cl_chunks]. intros c m Hc Hm. apply in_app_iff in Hc. destruct Hc as [Hc|Hc].
+  - pose proof (sml_lookup s name cl Hs El c m Hc Hm). cbn. lia.
+  - rewrite (chunks_of_pairs_no_migs _ _ _ _ _ _ _ _ Hc) in Hm. destruct Hm.
+Qed.
+
+Lemma auto_scale_up_inv s name k ch : store_metas_le s -> store_metas_le (fst (auto_scale_up_nodes s name k ch)).
+Proof.
+  intros Hs. unfold auto_scale_up_nodes. destruct (alookup name (st_clusters s)); [|exact Hs].
+  peel_inv Hs. apply auto_add_nodes_inv. exact Hs.
+Qed.
+
+Lemma auto_delete_inv s name : store_metas_le s -> store_metas_le (fst (auto_delete_free_nodes s name)).
+Proof.
+  intros Hs. unfold auto_delete_free_nodes. destruct (alookup name (st_clusters s)) as [cl|] eqn:El; [|exact Hs].
+  peel_inv Hs.
+  cbn [fst]. eapply (sml_insert s); [reflexivity|cbn; lia| |exact Hs].
+  cbn [cl_chunks]. intros cx m Hc Hm. apply filter_In in Hc. destruct Hc as [Hc _].
+  pose proof (sml_lookup s name cl Hs El cx m Hc Hm). cbn. lia.
+Qed.
+
+Lemma auto_delete_if_exists_fst' s name :
+  fst (auto_delete_free_nodes_if_exists s name) = fst (auto_delete_free_nodes s name).
+Proof.
+  unfold auto_delete_free_nodes_if_exists. destruct (auto_delete_free_nodes s name) as [s' [x|e|]]; try reflexivity.
+  destruct e; reflexivity.
+Qed.
+
+Lemma migrate_slots_inv s name : store_metas_le s -> store_metas_le (fst (migrate_slots s name)).
+Proof.
+  intros Hs. unfold migrate_slots. change (st_clusters (bump s)) with (st_clusters s).
+  destruct (alookup name (st_clusters s)) as [cl|] eqn:El; [|solve_same Hs].
+  peel_inv Hs.
+  destruct (remove_slots_from_src cl _) as [[chunks migs]|?|] eqn:Er; try solve_same Hs.
+  destruct (assign_dst_slots chunks migs) as [chunks'|?|] eqn:Ea; try solve_same Hs.
+  cbn [fst]. eapply (sml_insert s); [reflexivity|cbn; lia| |exact Hs].
+  cbn [cl_chunks st_epoch with_clusters bump with_epoch].
+  destruct (remove_slots_from_src_migs _ _ _ _ Er) as [He Hm].
+  eapply (metas_from_le (cl_chunks cl) _ (st_epoch s + 1) (st_epoch s)); [|apply (sml_lookup s name cl Hs El)|lia|lia].
+  eapply metas_from_trans; [apply metas_from_same_ents; exact He|].
+  eapply metas_from_trans; [apply (assign_dst_slots_metas _ _ _ _ Hm Ea)|apply compact_slots_metas].
+Qed.
+
+Lemma scale_down_inv s name k : store_metas_le s -> store_metas_le (fst (migrate_slots_to_scale_down s name k)).
+Proof.
+  intros Hs. unfold migrate_slots_to_scale_down. change (st_clusters (bump s)) with (st_clusters s).
+  destruct (alookup name (st_clusters s)) as [cl|] eqn:El; [|solve_same Hs].
+  peel_inv Hs.
+  destruct (remove_slots_from_src_to_scale_down cl _ _) as [[chunks migs]|?|] eqn:Er; try solve_same Hs.
+  destruct (assign_dst_slots chunks migs) as [chunks'|?|] eqn:Ea; try solve_same Hs.
+  cbn [fst]. eapply (sml_insert s); [reflexivity|cbn; lia| |exact Hs].
+  cbn [cl_chunks st_epoch with_clusters bump with_epoch].
+  destruct (remove_slots_scale_down_migs _ _ _ _ _ Er) as [He Hm].
+  eapply (metas_from_le (cl_chunks cl) _ (st_epoch s + 1) (st_epoch s)); [|apply (sml_lookup s name cl Hs El)|lia|lia].
+  eapply metas_from_trans; [apply metas_from_same_ents; exact He|].
+  eapply metas_from_trans; [apply (assign_dst_slots_metas _ _ _ _ Hm Ea)|apply compact_slots_metas].
+Qed.
+
+Lemma commit_migration_inv s name rl tag e : store_metas_le s -> store_metas_le (fst (commit_migration s name rl tag e)).
+Proof.
+  intros Hs. unfold commit_migration.
+  destruct (alookup name (st_clusters s)) as [cl|] eqn:El; [|exact Hs].
+  assert (Hgo : forall meta keep,
+    metas_le (compact_slots (commit_in (map (fun c => set_mig (set_mig c false (filter keep (ck_mig0 c))) true
+                                                              (filter keep (ck_mig1 c))) (cl_chunks cl)) rl meta))
+             (st_epoch s + 1)).
+  { intros meta keep.
+    eapply (metas_from_le (cl_chunks cl) _ (st_epoch s + 1) (st_epoch s)); [|apply (sml_lookup s name cl Hs El)|lia|lia].
+    eapply metas_from_trans; [apply filter_chunks_metas|].
+    eapply metas_from_trans; [apply commit_in_metas|apply compact_slots_metas]. }
+  destruct tag; try exact Hs.
+  - destruct (find_entry_chunks 0 (cl_chunks cl) rl e true) as [[si sp]|]; [|exact Hs].
+    destruct (find_entry_chunks 0 (cl_chunks cl) rl e false) as [[di dp]|]; [|exact Hs].
+    cbn [fst]. eapply (sml_insert s); [reflexivity|cbn; lia| |exact Hs]. apply Hgo.
+  - destruct (find_entry_chunks 0 (cl_chunks cl) rl e true) as [[si sp]|]; [|exact Hs].
+    destruct (find_entry_chunks 0 (cl_chunks cl) rl e false) as [[di dp]|]; [|exact Hs].
+    cbn [fst]. eapply (sml_insert s); [reflexivity|cbn; lia| |exact Hs]. apply Hgo.
+Qed.
+
+Lemma commit_api_inv s name rl tag e clr : store_metas_le s -> store_metas_le (fst (commit_migration_api s name rl tag e clr)).
+Proof.
+  intros Hs. unfold commit_migration_api.
+  pose proof (commit_migration_inv s name rl tag e Hs) as H.
+  destruct (commit_migration s name rl tag e) as [s1 [[]|?|]]; cbn [fst] in *; try exact H.
+  destruct clr; [|exact H]. rewrite auto_delete_if_exists_fst'. apply auto_delete_inv. exact H.
+Qed.
+
+Lemma auto_scale_out_inv s name k : store_metas_le s -> store_metas_le (fst (auto_scale_out_node_number s name k)).
+Proof.
+  intros Hs. unfold auto_scale_out_node_number. destruct (alookup name (st_clusters s)); [|exact Hs].
+  destruct (N.ltb _ _); [apply migrate_slots_inv; exact Hs|exact Hs].
+Qed.
+
+Lemma auto_change_inv s name k ch : store_metas_le s -> store_metas_le (fst (auto_change_node_number s name k ch)).
+Proof.
+  intros Hs. unfold auto_change_node_number.
+  destruct (alookup name (st_clusters s)) as [cl|]; [|exact Hs].
+  destruct (cluster_is_migrating cl); [exact Hs|].
+  pose proof (auto_delete_inv s name Hs) as Hdel.
+  destruct (auto_delete_free_nodes s name) as [s1 r1]. cbn [fst] in Hdel.
+  assert (Htail : store_metas_le (fst (match alookup name (st_clusters s1) with
+                             | None => (s1, Fail E_ClusterNotFound)
+                             | Some cl1 =>
+                               if N.eqb (4 * N.of_nat (length (cl_chunks cl1))) k then (s1, Done NoOp)
+                               else if N.ltb (4 * N.of_nat (length (cl_chunks cl1))) k then
+                                 match auto_scale_up_nodes s1 name k ch with
+                                 | (s2, Done _) => (s2, Done ScaleOut)
+                                 | (s2, Fail e) => (s2, Fail e)
+                                 | (s2, Panic) => (s2, Panic)
+                                 end
+                               else
+                                 match migrate_slots_to_scale_down s1 name k with
+                                 | (s2, Done _) => (s2, Done ScaleDown)
+                                 | (s2, Fail e) => (s2, Fail e)
+                                 | (s2, Panic) => (s2, Panic)
+                                 end
+                             end))).
+  { destruct (alookup name (st_clusters s1)) as [cl1|]; [|exact Hdel].
+    destruct (N.eqb _ k); [exact Hdel|].
+    destruct (N.ltb _ k).
+    - pose proof (auto_scale_up_inv s1 name k ch Hdel) as H2.
+      destruct (auto_scale_up_nodes s1 name k ch) as [s2 [x|e|]]; exact H2.
+    - pose proof (scale_down_inv s1 name k Hdel) as H2.
+      destruct (migrate_slots_to_scale_down s1 name k) as [s2 [x|e|]]; exact H2. }
+  destruct r1 as [x|e|].
+  - exact Htail.
+  - destruct e; try exact Hdel. exact Htail.
+  - exact Hdel.
+Qed.
+
+Lemma replace_failed_inv s f ch : store_metas_le s -> store_metas_le (fst (replace_failed_proxy s f ch)).
+Proof.
+  intros Hs. unfold replace_failed_proxy.
+  destruct (alookup f (st_proxies s)) as [fr|]; [|exact Hs].
+  destruct (pr_cluster fr) as [name|]; [|solve_same Hs].
+  change (st_clusters (bump s)) with (st_clusters s).
+  destruct (alookup name (st_clusters s)) as [cl|] eqn:El; [|solve_same Hs].
+  set (clt := takeover_master cl f (st_epoch (bump s))).
+  assert (Hclt : metas_le (cl_chunks clt) (st_epoch s + 1)).
+  { subst clt. apply (takeover_metas_le cl f _ (st_epoch s)); [apply (sml_lookup s name cl Hs El)|cbn; lia]. }
+  cbn [st_ordered with_clusters].
+  destruct (st_ordered (bump s)).
+  { cbn [fst]. eapply (sml_insert s); [reflexivity|cbn; lia| |exact Hs]. eapply metas_le_mono; [exact Hclt|cbn; lia]. }
+  match goal with |- context [generate_new_free_proxy ?x f ch] => set (s3 := x) end.
+  assert (H3 : store_metas_le s3).
+  { eapply (sml_insert s); [reflexivity|cbn; lia| |exact Hs]. exact Hclt. }
+  destruct (generate_new_free_proxy s3 f ch) as [r|e|]; try exact H3.
+  change (st_clusters (bump s3)) with (ainsert name clt (st_clusters s)).
+  rewrite alookup_ainsert_same. cbn [fst].
+  eapply (sml_insert s3); [reflexivity|cbn; lia| |exact H3].
+  cbn [cl_chunks]. eapply (metas_from_le (cl_chunks clt) _ 0 (st_epoch s + 1));
+    [apply metas_from_same_ents; apply replace_in_chunks_ents|exact Hclt|cbn; lia|cbn; lia].
+Qed.
+
+Lemma balance_inv s name : store_metas_le s -> store_metas_le (fst (balance_masters s name)).
+Proof.
+  intros Hs. unfold balance_masters. destruct (alookup name (st_clusters s)) as [cl|] eqn:El; [|exact Hs].
+  cbn [fst]. eapply (sml_insert s); [reflexivity|cbn; lia| |exact Hs].
+  cbn [cl_chunks]. eapply (metas_from_le (cl_chunks cl) _ 0 (st_epoch s)); [|apply (sml_lookup s name cl Hs El)|cbn; lia|cbn; lia].
+  apply metas_from_map. intros c. apply chunk_from_same_entries. destruct (_ || _); reflexivity.
+Qed.
+
+Lemma change_config_inv s name v cfg : store_metas_le s -> store_metas_le (fst (change_config s name v cfg)).
+Proof.
+  intros Hs. unfold change_config. destruct (alookup name (st_clusters s)) as [cl|] eqn:El; [|exact Hs].
+  peel_inv Hs.
+  cbn [fst]. eapply (sml_insert s); [reflexivity|cbn; lia| |exact Hs].
+  cbn [cl_chunks]. eapply metas_le_mono; [apply (sml_lookup s name cl Hs El)|cbn; lia].
+Qed.
+
+Lemma set_all_epochs_inv s e : st_epoch s <= e -> store_metas_le s -> store_metas_le (set_all_cluster_epochs s e).
+Proof.
+  intros He Hs n cl Hin. unfold set_all_cluster_epochs in *. cbn [st_clusters st_epoch with_clusters with_epoch] in *.
+  apply in_map_iff in Hin. destruct Hin as ([n0 cl0] & Heq & Hin0). cbn [fst snd] in Heq. inversion Heq; subst.
+  cbn [set_cl_epoch cl_chunks]. eapply metas_le_mono; [apply (Hs n cl0 Hin0)|exact He].
+Qed.
+
+Lemma add_failure_frame s a r now :
+  st_clusters (fst (add_failure s a r now)) = st_clusters s /\ st_epoch s <= st_epoch (fst (add_failure s a r now)).
+Proof. unfold add_failure. match goal with |- context [if ?b then _ else _] => destruct b end; cbn; split; try reflexivity; lia. Qed.
+
+Lemma lift_unit_fst' r : fst (lift_unit r) = fst r.
+Proof. destruct r as [s [x|e|]]; reflexivity. Qed.
+
+(* MAIN: the invariant is kept by every operation; a restored snapshot must satisfy it itself *)
+Lemma step_keeps_metas_le : forall s o,
+  store_metas_le s -> (forall snap, o = ORestore snap -> store_metas_le snap) -> store_metas_le (fst (step s o)).
+Proof.
+  intros s o Hs Hsnap. destruct o; cbn [step]; rewrite ?lift_unit_fst'.
+  - unfold add_proxy. destruct (if st_ordered s then index else Some 0); [|exact Hs].
+    cbn [fst]. destruct (negb _ || _); eapply (sml_same s); try reflexivity; try exact Hs; cbn; lia.
+  - unfold remove_proxy. destruct (alookup addr (st_proxies s)) as [r|]; [|exact Hs].
+    destruct (pr_cluster r); [exact Hs|]. eapply (sml_same s); [reflexivity|cbn; lia|exact Hs].
+  - apply add_cluster_inv, Hs.
+  - apply remove_cluster_inv, Hs.
+  - apply auto_add_nodes_inv, Hs.
+  - apply auto_scale_up_inv, Hs.
+  - apply auto_delete_inv, Hs.
+  - apply migrate_slots_inv, Hs.
+  - apply scale_down_inv, Hs.
+  - apply commit_api_inv, Hs.
+  - destruct (nth_out_entry s name j); rewrite lift_unit_fst'; apply commit_api_inv, Hs.
+  - pose proof (auto_change_inv s name expected choices Hs) as H.
+    destruct (auto_change_node_number s name expected choices) as [s' [x|e|]]; exact H.
+  - apply auto_scale_out_inv, Hs.
+  - pose proof (replace_failed_inv s addr choice Hs) as H.
+    destruct (replace_failed_proxy s addr choice) as [s' [x|e|]]; exact H.
+  - apply balance_inv, Hs.
+  - apply change_config_inv, Hs.
+  - destruct (add_failure_frame s addr reporter now) as [H1 H2].
+    destruct (add_failure s addr reporter now) as [s' b]. eapply (sml_same s); [exact H1|exact H2|exact Hs].
+  - eapply (sml_same s); [reflexivity|cbn; lia|exact Hs].
+  - eapply (sml_same s); [reflexivity|cbn; lia|exact Hs].
+  - unfold force_bump_all_epoch. destruct (N.leb e (st_epoch s)) eqn:E; [exact Hs|].
+    cbn [fst]. apply set_all_epochs_inv; [|exact Hs]. apply N.leb_gt in E. lia.
+  - cbn [fst]. unfold recover_epoch. apply set_all_epochs_inv; [lia|exact Hs].
+  - unfold restore. destruct (N.ltb (st_epoch snapshot) (st_epoch s)); [exact Hs|]. cbn [fst]. apply (Hsnap snapshot eq_refl).
+Qed.
+
+Lemma init_metas_le o : store_metas_le (init_store o).
+Proof. intros n cl []. Qed.
+
+(* every store reached from an empty store by operations other than ORestore satisfies the invariant *)
+Lemma run_keeps_metas_le : forall ops s,
+  store_metas_le s -> (forall o snap, In o ops -> o <> ORestore snap) -> store_metas_le (run s ops).
+Proof.
+  induction ops as [|o ops IH]; intros s Hs Hno; [exact Hs|].
+  change (run s (o :: ops)) with (run (fst (step s o)) ops).
+  apply IH.
+  - apply step_keeps_metas_le; [exact Hs|]. intros snap ->. exfalso. apply (Hno (ORestore snap) snap); [left|]; reflexivity.
+  - intros o' snap Hin. apply Hno. right. exact Hin.
+Qed.
+
+Lemma reachable_epochs_le : forall ordered ops,
+  (forall o snap, In o ops -> o <> ORestore snap) -> store_epochs_le (run (init_store ordered) ops).
+Proof.
+  intros ordered ops Hno. apply store_metas_le_implies. apply run_keeps_metas_le; [apply init_metas_le|exact Hno].
+Qed.
